@@ -1,15 +1,47 @@
 """C12 (module-level): see Props/C12.v and DESIGN.md section 5."""
+import json, os
+from .. import core
 from .modcommon import run_mod
 
 PROOF = "Props/C12.v"
-RUN_FILES = ["Run/ModuleRun.v"]
-CORR_NAME = "parseM / gc / emitM models vs. real parse, gc, emit_wasm on fixtures and generated modules"
+RUN_FILES = ["Run/ModuleRun.v", "Run/FrameRun.v"]
+CORR_NAME = "parseM / gc / emitM models vs. real parse, gc, emit_wasm on fixtures and generated modules; byte-level framing model vs. wasmparser / wasm-encoder / what walrus stores"
 ASSUMPTIONS = [
     "Model/ParseM.v, EmitM.v, GC.v are hand-written executable models of src/module/*.rs and src/passes/*.rs; attribute plumbing (Gen/Attrs.v), operator tables (Gen/Ops.v) and hook shapes are regenerated from the source; the models are tied to the code by replaying every (module, configuration) case on them and comparing the emitted section stream (this run)",
-    "wasm-encoder's byte encoding of an abstract section and wasmparser's decoding are trusted and used as the differential oracle; DWARF payloads are gimli's and only their inventory is compared here",
+    "below the section stream, Model/Frame.v models the framing (magic, id / LEB128 size / payload, the name-length / name / data layout of a custom section, the count / size-prefixed bodies of the code section); it is tied to wasmparser's reader, wasm-encoder's writer and the (name, data) walrus keeps for every uninterpreted custom section by this run (Run/FrameRun.v); the encoding of every other payload is wasm-encoder's; DWARF payloads are gimli's and only their inventory is compared here",
     "validation of the input is wasmparser's and is a premise of the theorems",
 ]
 
 
+def frame_run(ctx, thorough, search):
+    out = os.path.join(ctx.work, ("search" if search else "corr") + "_frame")
+    rc, o, dt = core.sh([core.vh(), "frame", out, str(ctx.seed + (55 if search else 0)), str(400 if thorough else 30)], timeout=1500)
+    if rc != 0:
+        return [{"error": "frame harness failed", "out": o[-600:]}], [], {}
+    meta = json.load(open(os.path.join(out, "meta.json")))
+    results, errors = core.coq_eval(out, "cases_frame_*.v")
+    dis = [{"file": f, "coq_error": m[-400:]} for f, m in errors.items()]
+    names = {51: "sections differ from wasmparser's reader", 52: "model cannot read the module", 53: "the model's writer does not reproduce walrus's output bytes", 54: "name / data of a custom section differ from what walrus keeps",
+             55: "model cannot split the custom section", 56: "body offsets differ from wasmparser's", 57: "the model's writer does not reproduce the code section", 58: "model cannot read the code section"}
+    n = 0
+    for f, codes in results.items():
+        n += len(codes)
+        for i, c in enumerate(codes):
+            if c != 0:
+                dis.append({"code": c, "meaning": names.get(c, "?"), "file": os.path.basename(f), "case_index": i})
+    ov = [{"class": v["class"], "what": v["what"], "input": {"module_hex": v.get("input")}, "replay_cmd": "parse <module_hex> and list module.customs"} for v in meta.get("oracle_violations", []) if "C12" in v.get("props", "").split()]
+    cov = {k: meta.get(k) for k in ("cases", "inputs", "input_modules", "output_modules", "custom_sections", "custom_sections_with_multi_byte_name_length", "code_sections", "too_large_for_the_coq_side")}
+    cov["evaluated_in_coq"] = n
+    cov["samples"] = [s[:500] for s in meta.get("samples", [])]
+    return dis, ov, cov
+
+
 def correspondence(ctx, thorough, search):
-    return run_mod(ctx, thorough, search, "C12")
+    r = run_mod(ctx, thorough, search, "C12")
+    dis, ov, cov = frame_run(ctx, thorough, search)
+    r["disagreements"] += dis
+    r["oracle_violations"] += ov
+    r["coverage"]["framing"] = cov
+    r["coverage"]["traces_validated_against_impl"] = r["coverage"].get("traces_validated_against_impl", 0) + cov.get("evaluated_in_coq", 0)
+    r["coverage"]["rule"] = r["coverage"].get("rule", "") + " || framing: corpus, fixtures and generated modules of at most 900 bytes: the input's sections as wasmparser's BinaryReader sees them, walrus's output (reader AND writer: the model re-produces the bytes), the (name, data) walrus keeps for every uninterpreted custom section (incl. names of 128 bytes and more and padded name lengths), body offsets of the emitted code section"
+    return r
